@@ -15,7 +15,9 @@ Proj(st) == [n |-> Len(st.atoms), pos |-> [i \in 1..Len(st.atoms) |-> st.atoms[i
 
 RInit == Init /\ hist = << [a |-> "init", name |-> "", subs |-> <<>>, verdict |-> "", s |-> Proj(s)] >>
 
-RNext == /\ Next
+\* (restarts are bound in the other direction -- recorded runs that start from a rebuilt simulation, qscen.restart_prologue --
+\*  because a rebuilt table no longer shares move objects between its entries the way these behaviours' set-ups do)
+RNext == /\ Trial
          /\ hist' = IF pc' = "idle" THEN hist
                     ELSE Append(hist, [a |-> pc', name |-> cur', subs |-> subsv', verdict |-> verdict', s |-> Proj(s')])
 
